@@ -80,6 +80,17 @@ func genC23(g *Gen, tier string, w *bufio.Writer) {
 			fmt.Fprintln(w, linesOp(&sep, c))
 		}
 	}
+	// pieces around the scanner's 64 KiB buffer: piece + separator must fit, the last unterminated piece must
+	// leave one byte free; longer ones are reported as an error, never truncated
+	for _, sep := range []string{",", "XY"} {
+		sep := sep
+		for _, d := range []int{-2, -1, 0, 1} {
+			fmt.Fprintln(w, linesOp(&sep, strings.Repeat("a", 65536-len(sep)+d)+sep+"tail"))
+			fmt.Fprintln(w, linesOp(&sep, "h"+sep+strings.Repeat("a", 65536+d)))
+		}
+	}
+	fmt.Fprintln(w, linesOp(nil, strings.Repeat("a", 65535)+"\ntail"))
+	fmt.Fprintln(w, linesOp(nil, strings.Repeat("a", 65536)+"\ntail\n"))
 	empty := ""
 	fmt.Fprintln(w, linesOp(&empty, "abc"))
 	for i := 0; i < 20*mul; i++ {
